@@ -499,6 +499,9 @@ fn shared_env_job(ctx: &Ctx, job: usize, rounds: u64) -> Stats {
     let names = ["a", "b", "c", "d", "e"];
     let mut cfg = GenCfg::simple(&names, 4);
     cfg.max_fix_depth = 1;
+    // references to definitions nobody made are part of the language (they read as false)
+    cfg.allow_ref = true;
+    const REF_TEXTS: [&str; 6] = ["{r}", "false | {r}", "exists a # {r}", "gfp X # {r}", "{r} ^ {s}", "if a then {r} else {r}"];
     for round in 0..rounds {
         let ordering: Vec<NamedSymbol> = {
             let mut ids: Vec<usize> = (0..names.len()).collect();
@@ -513,6 +516,8 @@ fn shared_env_job(ctx: &Ctx, job: usize, rounds: u64) -> Stats {
             // either a new formula or a re-evaluation of an earlier one
             let text = if !done.is_empty() && rng.chance(1, 3) {
                 done[rng.usize(done.len())].0.clone()
+            } else if rng.chance(1, 40) {
+                rng.pick_str(&REF_TEXTS).to_string()
             } else {
                 let ast = gen::gen_ast(&mut rng, &cfg);
                 gen::render(&ast, &mut rng, Style::Plain)
@@ -583,7 +588,7 @@ fn shared_env_job(ctx: &Ctx, job: usize, rounds: u64) -> Stats {
 }
 
 pub fn run(ctx: &Ctx) -> (Stats, Spec) {
-    let big = ctx.tier.pick(3_600usize, 10_000usize);
+    let big = ctx.tier.pick(18_000usize, 40_000usize);
     let (hist, maxlen, rounds) = ctx.tier.pick((300u64, 600usize, 2500u64), (1500u64, 3000usize, 20000u64));
     let st = with_stderr_gagged(|| {
         let parts = util::par_jobs(16, |job| {
